@@ -294,6 +294,9 @@ package cdcn
 //@   ensures fresh(result) && result != nil
 //@   ensures forall i :: 0 <= i && i < len(view(result)) ==> runes(unboxStr(view(result)[i])) <= runes(text)
 //@   ensures len(view(result)) > 0 ==> unboxStr(view(result)[0]) == tokmatch(type_, text)
+// assumption about the token patterns (checked on a finite domain by the bounded stand-in quoted_tokens / nonempty
+// matches): no token pattern matches the empty string, so a successful match consumes at least one character
+//@   ensures len(view(result)) > 0 ==> runes(unboxStr(view(result)[0])) >= 1
 
 //@ type *scanner_
 //@   invariant[C12] 0 <= this.first_ && this.first_ <= this.next_ && this.next_ <= len(this.runes_) && this.line_ >= 1 && this.line_ <= 1 + this.next_ && this.tokens_ != nil
@@ -345,7 +348,7 @@ package cdcn
 //@   props C12 C19
 //@   safe
 //@   modifies this.next_, this.first_, this.line_, this.position_, view(this.tokens_), put(this.tokens_)
-//@   ensures[C12] this.runes_ == old(this.runes_) && (!result ==> this.next_ == old(this.next_)) && (result ==> this.next_ >= old(this.next_))
+//@   ensures[C12] this.runes_ == old(this.runes_) && (!result ==> this.next_ == old(this.next_)) && (result ==> this.next_ > old(this.next_))
 //@   ensures[C12] this.tokens_ == old(this.tokens_) && (put(this.tokens_) == old(put(this.tokens_)) || emitted(this, this.tokens_, type_))
 //@ func (*scanner_).scanTokens
 //@   props C12 C19
@@ -357,7 +360,7 @@ package cdcn
 //@   loop 1:
 //@     invariant inv(scanner_, this)
 //@     invariant this.tokens_ == q && p0 <= len(put(q)) && noerror(q, p0, len(put(q)))
-//@     decreases *
+//@     decreases len(this.runes_) - this.next_
 
 // ---------------------------------------------------------------- formatter (C10: state frame, termination, no runtime error)
 
